@@ -44,7 +44,7 @@ func RunStore(o *drv.Out) {
 	u := NewUniverse(160, thorough)
 	cases, blocks, maxBig := 14, 6, 500
 	if thorough {
-		cases, blocks, maxBig = 60, 10, 5000
+		cases, blocks, maxBig = 24, 8, 2500
 	}
 	for ci := 0; ci < cases; ci++ {
 		sti, err := store.NewStoreInMemory(lib.NewNullLogger())
